@@ -656,7 +656,12 @@ static INLINE void dec_save_lf_boundary_lines_sb_row(EbDecHandle *  dec_handle,
         int32_t src_width  = frame_size->frame_width >> ss_x;
         int32_t src_height = frame_size->frame_height >> ss_y;
 
-        for (int32_t row_cnt = 0; row_cnt <= num64s; row_cnt++) {
+        /* Restoration stripes are offset by RESTORATION_UNIT_OFFSET rows, so the frame can have one more stripe
+           than 64-row units in its superblock rows: the last superblock row also saves the context of that
+           trailing stripe (the loop ends at the bottom of the tile). */
+        const EbBool last_sb_row =
+            (sb_row == dec_handle->main_frame_buf.cur_frame_bufs[0].dec_mt_frame_data.sb_rows - 1);
+        for (int32_t row_cnt = 0; row_cnt <= num64s || last_sb_row; row_cnt++) {
             const int32_t frame_stripe = (sb_row << num64s) + row_cnt; /* 64 strip */
             const int32_t rel_y0       = AOMMAX(0, frame_stripe * stripe_height - stripe_off);
             const int32_t y0           = tile_rect[p]->top + rel_y0;
